@@ -3,7 +3,8 @@
   Model: Atomman/C07.lean (writers, independent parsers), tables: Atomman/Generated/AtomStyles.lean (regenerated
   from /repo on every run).
 -/
-import Proofs.C07_Lemmas
+import Proofs.C07_Inside
+import Proofs.C07_Poscar
 namespace Atomman.C07
 open Atomman
 set_option linter.unusedSimpArgs false
@@ -18,6 +19,250 @@ theorem fmtFixed_error (q : ℚ) (n : Nat) :
 
 example : parseNum? (fmtFixed (5 / 2) 0) = some 2 := by decide +kernel
 example : fmtFixed (-1 / 8) 2 = cs!"-0.12" := by decide +kernel
+
+
+/-! ## reading back `%.ne` -/
+
+/-- **fmtExp_error**: what an independent reader gets from the text of `'%.ne' % q` differs from `q` by at most half a
+    unit of the last printed digit (`e = ⌊log₁₀|q|⌋`, see `expOf_spec`). -/
+theorem fmtExp_error (q : ℚ) (n : Nat) (hq : q ≠ 0) :
+    ∃ v, parseNum? (fmtExp q n) = some v ∧ |v - q| ≤ 1 / 2 * pow10 (expOf |q| - (n : Int)) ∧
+      pow10 (expOf |q|) ≤ |q| ∧ |q| < pow10 (expOf |q| + 1) :=
+  ⟨expVal q n, parseNum_fmtExp q n, expVal_error q n hq, expOf_spec |q| (abs_pos.mpr hq)⟩
+
+example : parseNum? (fmtExp (-1234567 / 1000) 3) = some (-1235) := by
+  rw [parseNum_fmtExp]; decide +kernel
+example : fmtExp (1 / 8) 2 = cs!"1.25e-01" := by decide +kernel
+
+/-! ## whole files: independent parser ∘ writer -/
+
+def isOk {α : Type} (r : Res α) : Bool := match r with | .ok _ => true | .error _ => false
+
+/-- a small triclinic system with one atom outside the cell (used for the non-vacuity examples). -/
+def exSys : Sys :=
+  { box := ⟨⟨⟨4, 0, 0⟩, ⟨1, 3, 0⟩, ⟨0, 0, 5⟩⟩, ⟨-1, 0, 0⟩⟩, pbc := ⟨true, true, false⟩, natypes := 2,
+    atype := [1, 2], pos := [⟨0, 0, 0⟩, ⟨9/2, 1, 6⟩], props := [] }
+def exUnits : Units := [("length", some 1)]
+def exCols : List ColSpec := [⟨"a_id", ["id"], .none⟩, ⟨"atype", ["type"], .none⟩, ⟨"pos", ["x", "y", "z"], .kind "length"⟩]
+def exProps : List (String × List Nat) := [("atom_id", []), ("atype", []), ("pos", [3])]
+
+/-- **table_parse_write**: for every system and column list, a reader that splits the written table at blanks and
+    reads every field as a decimal number gets one row per atom holding exactly the written cells (each number at
+    its printed precision, `Cell.val`), the header line naming the columns, and every row has as many fields as
+    there are column names.  Hypotheses: the column names are single words and the id/type columns have one name. -/
+theorem table_parse_write (s : Sys) (cols : List ColSpec) (u : Units) (f : Fmt) (header : Bool)
+    (text : List Char) (h : writeTable s cols u f header = .ok text) (hn : NamesOk cols) (hid : IdNamesOk cols) :
+    ∃ rows, tableRows s u (seqIds s.natoms) s.pos cols [] = .ok rows ∧ rows.length = s.natoms ∧
+      (∀ r ∈ rows, r.length = (nameLine cols).length) ∧
+      parseTable text header = some { columns := if header then some (nameLine cols) else none,
+                                      rows := rows.map (·.map (Cell.val f)) } := by
+  obtain ⟨rows, hr, hp⟩ := parseTable_writeTable s cols u f header text h hn hid
+  exact ⟨rows, hr, (tableRows_spec _ _ _ _ _ _ _ hr).1, row_length _ _ _ _ _ hid rows hr, hp⟩
+
+example : isOk (writeTable exSys exCols exUnits (.fixed 3) true) = true ∧ NamesOk exCols ∧ IdNamesOk exCols := by
+  refine ⟨by decide +kernel, ?_, ?_⟩
+  · intro c hc n hn
+    simp only [exCols, List.mem_cons, List.not_mem_nil, or_false] at hc
+    rcases hc with rfl | rfl | rfl <;> simp at hn <;> (try rcases hn with rfl | rfl | rfl) <;> decide
+  · intro c hc
+    simp only [exCols, List.mem_cons, List.not_mem_nil, or_false] at hc
+    rcases hc with rfl | rfl | rfl <;> simp
+
+/-- **dump_parse_write**: for every system, the independent `dump custom` reader applied to the written text returns
+    the time step, the atom count of the header = the number of atoms = the number of rows, the `pp`/`fm` flags of
+    the three directions in order, the LAMMPS bounding box `lo + MIN(0, xy, xz, xy+xz)` … (`dump_bbox_corners`) and
+    the tilts at printed precision, from which `hiLoOfBBox` rebuilds `xlo … zhi` (`dump_bbox`), the `xy xz yz`
+    keyword exactly for a tilted cell, the column names, and per atom exactly the written cells; ids are unique. -/
+theorem dump_parse_write (s : Sys) (props : List (String × List Nat)) (u : Units) (f : Fmt) (ts : Int)
+    (text : List Char) (h : writeDump s props u f ts = .ok text)
+    (hn : NamesOk (props.map fun p => dumpCol p.1 p.2)) (hid : IdNamesOk (props.map fun p => dumpCol p.1 p.2)) :
+    ∃ lf rows, s.box.isLammpsNorm = true ∧ lengthFactor u = .ok lf ∧ hasDup (dumpIds s) = false ∧
+      tableRows s u (dumpIds s) s.pos (props.map fun p => dumpCol p.1 p.2) [] = .ok rows ∧
+      rows.length = s.natoms ∧
+      parseDump text =
+        some { timestep := ts, natoms := s.natoms,
+               triclinic := !decide (orthoH ((hiLoOf s.box).map (divBy lf))),
+               boundary := [bflagD s.pbc.x, bflagD s.pbc.y, bflagD s.pbc.z],
+               bbox := (bboxOf ((hiLoOf s.box).map (divBy lf))).map (fmtVal f),
+               hilo := hiLoOfBBox ((bboxOf ((hiLoOf s.box).map (divBy lf))).map (fmtVal f))
+                 (fmtVal f ((hiLoOf s.box).map (divBy lf)).xy) (fmtVal f ((hiLoOf s.box).map (divBy lf)).xz)
+                 (fmtVal f ((hiLoOf s.box).map (divBy lf)).yz),
+               columns := nameLine (props.map fun p => dumpCol p.1 p.2),
+               rows := rows.map (·.map (Cell.val f)) } := by
+  obtain ⟨lf, rows, h1, h2, h3, h4, h5⟩ := parseDump_writeDump s props u f ts text h hn hid
+  exact ⟨lf, rows, h1, h2, h3, h4, (tableRows_spec _ _ _ _ _ _ _ h4).1, h5⟩
+
+example : isOk (writeDump ({ exSys with pos := [⟨0, 0, 0⟩, ⟨1, 1, 1⟩] }) exProps exUnits (.exp 5) 7) = true := by
+  decide +kernel
+
+/-- **poscar_parse_write**: for every system with valid atom types, the independent POSCAR reader applied to the
+    written text returns the comment line, the scale factor, the lattice rows multiplied by it, the symbols line,
+    the per-type counts, the coordinate mode and the coordinate rows grouped by type, every number at its printed
+    precision; the positions it reconstructs are `scale · row` in Cartesian mode and `row · lattice` in direct
+    mode (with `poscar_scale`: the cell and the positions of the system).  Hypotheses on the strings: see
+    `PoscarStringsOk`; the printed scale factor is positive. -/
+theorem poscar_parse_write (s : Sys) (header : List String) (symbols : Option (List String)) (coordstyle : String)
+    (scale : ℚ) (f : Fmt) (text : List Char) (h : writePoscar s header symbols coordstyle scale f = .ok text)
+    (hs : PoscarStringsOk header symbols coordstyle) (hscale : 0 < fmtVal f scale)
+    (hlen : s.atype.length = s.pos.length) (hty : ∀ t ∈ s.atype, 1 ≤ t ∧ t ≤ (s.natypes : Int)) :
+    let p := poscarNums s (isCartTok (strTok coordstyle)) scale
+    scale ≠ 0 ∧ s.natoms ≠ 0 ∧ (∀ l, symbols = some l → l.length = s.natypes) ∧
+    p.coords.length = s.natoms ∧ p.counts.foldl (· + ·) 0 = s.natoms ∧
+    parsePoscar text = some (poscarExpected f header symbols coordstyle scale p) := by
+  intro p
+  obtain ⟨h1, h2, h3, h4⟩ := parsePoscar_writePoscar s header symbols coordstyle scale f text h hs hscale hlen hty
+  obtain ⟨_, c2, c3⟩ := poscarNums_counts s (isCartTok (strTok coordstyle)) scale h2 hlen hty
+  exact ⟨h1, h2, h3, c3, by rw [c2, c3], h4⟩
+
+example : isOk (writePoscar exSys ["test"] (some ["Al", "Cu"]) "Cartesian" 2 (.exp 5)) = true ∧
+    PoscarStringsOk ["test"] (some ["Al", "Cu"]) "Cartesian" ∧ 0 < fmtVal (.exp 5) 2 ∧
+    exSys.atype.length = exSys.pos.length ∧ (∀ t ∈ exSys.atype, 1 ≤ t ∧ t ≤ (exSys.natypes : Int)) := by
+  refine ⟨by decide +kernel, ⟨by decide, by decide, ?_, ?_⟩, by decide +kernel, rfl, by decide⟩
+  · intro c r hcr
+    have : ("Cartesian" : String).toList = 'C' :: "artesian".toList := rfl
+    rw [this] at hcr; injection hcr with h1 _; subst h1; decide
+  · intro l hl; injection hl with hl; subst hl
+    exact ⟨by decide, "Al", ["Cu"], rfl, by decide⟩
+
+/-- **data_parse_write**: for every system, every atom_style the writer accepts (hybrids included) and every unit
+    style, the independent `read_data` reader — which knows only the LAMMPS manual's line layout of that style —
+    applied to the written text returns: the header counts = the system's; the bounds = the wrapped box divided by
+    the length unit, at printed precision; the `Atoms # style` hint; one record per atom, in order, with id `k+1`,
+    the atom's type, the wrapped position divided by the length unit at printed precision, the image flags `wrap`
+    returned (so `unwrapPos` rebuilds the original position, C05 `wrap_reconstruct`), and every other field of the
+    line = the written cell of the matching column (`layoutOf … = colsLayout cols`: the field-for-field
+    correspondence of names and unit kinds); and a `Velocities` section iff the system has velocities, one record per
+    atom with id `k+1`.  Hypothesis: integer LAMMPS fields are stored as integer properties (`IntTyped`). -/
+theorem data_parse_write (s : Sys) (style : String) (u : Units) (f : Fmt) (text : List Char)
+    (h : writeData s style u f = .ok text) (hs : IntTyped s) :
+    ∃ p w lf cols L pd, dataParts s style u = .ok (p, w) ∧ w = wrap s.box s.pbc s.pos ∧ w.box.isLammpsNorm = true ∧
+      lengthFactor u = .ok lf ∧ atomCols style = some cols ∧ layoutOf lammpsAtomLayout style = some L ∧
+      colsLayout cols = some L ∧ text = renderLines (dataDocOf f style p) ∧
+      parseData text style = some pd ∧
+      pd.natoms = s.natoms ∧ pd.ntypes = s.natypes ∧
+      pd.hilo = ((hiLoOf w.box).map (divBy lf)).map (fmtVal f) ∧
+      pd.styleHint = (styleWords style).map strTok ∧
+      pd.atoms.length = s.natoms ∧ (∀ k (hk : k < pd.atoms.length), AtomOk f s u w lf cols k pd.atoms[k]) ∧
+      (((s.prop? "velocity").isSome = false ∧ pd.velocities = none) ∨
+       ((s.prop? "velocity").isSome = true ∧ ∃ vc vrecs, velCols style = some vc ∧ pd.velocities = some vrecs ∧
+          vrecs.length = s.natoms ∧ ∀ k (hk : k < vrecs.length), VelOk f s u w vc k vrecs[k])) :=
+  parseData_writeData s style u f text h hs
+
+theorem styleWords_atomic : styleWords "atomic" = ["atomic"] := by
+  simp [styleWords, String.splitOn]
+  repeat (rw [String.splitOnAux]; simp (config := {decide := true}))
+
+example : isOk (writeData exSys "atomic" exUnits (.fixed 3)) = true ∧ IntTyped exSys := by
+  constructor
+  · unfold writeData writeDataDoc dataParts atomCols velCols styleCols dataDocOf
+    simp only [styleWords_atomic]
+    decide +kernel
+  · intro col hcol; simp [exSys] at hcol
+
+/-- **data_wellformed**: for every written data file, as read by the independent reader:
+    the header counts match the sections; the ids of the `Atoms` (and `Velocities`) lines are exactly `1..N` in
+    order, hence unique; every type is the atom's type; the exact bounds satisfy `lo < hi` and the printed ones do
+    for `%.nf` whenever the extent exceeds one unit of the last printed place; every written atom position lies
+    inside the box a LAMMPS run builds from the written bounds (C05 `wrap_inside`; stated for the numbers the file
+    prints before rounding — each printed number is within half a unit of the last place of them); and a line with the
+    `xy xz yz` keywords is present iff a tilt is non-zero.  `hu`: the length unit is positive. -/
+theorem data_wellformed (s : Sys) (style : String) (u : Units) (f : Fmt) (text : List Char)
+    (h : writeData s style u f = .ok text) (hs : IntTyped s)
+    (hu : ∀ c, u.factor? "length" = some (some c) → 0 < c) :
+    ∃ p w lf pd, dataParts s style u = .ok (p, w) ∧ lengthFactor u = .ok lf ∧ w = wrap s.box s.pbc s.pos ∧
+      text = renderLines (dataDocOf f style p) ∧ parseData text style = some pd ∧
+      -- counts
+      pd.natoms = s.natoms ∧ pd.atoms.length = pd.natoms ∧ (∀ v, pd.velocities = some v → v.length = pd.natoms) ∧
+      -- ids 1..N, types
+      (∀ k (hk : k < pd.atoms.length), pd.atoms[k].id = (k : Int) + 1 ∧ s.atype[k]? = some pd.atoms[k].type) ∧
+      (∀ v, pd.velocities = some v → ∀ k (hk : k < v.length), v[k].id = (k : Int) + 1) ∧
+      hasDup (pd.atoms.map (·.id)) = false ∧
+      -- bounds
+      (let hx := (hiLoOf w.box).map (divBy lf)
+       p.hilo = hx ∧ pd.hilo = hx.map (fmtVal f) ∧ hx.xlo < hx.xhi ∧ hx.ylo < hx.yhi ∧ hx.zlo < hx.zhi ∧
+       (∀ n, f = .fixed n →
+          (1 / 10 ^ n < hx.xhi - hx.xlo → pd.hilo.xlo < pd.hilo.xhi) ∧
+          (1 / 10 ^ n < hx.yhi - hx.ylo → pd.hilo.ylo < pd.hilo.yhi) ∧
+          (1 / 10 ^ n < hx.zhi - hx.zlo → pd.hilo.zlo < pd.hilo.zhi)) ∧
+       -- every atom inside the written bounds
+       (∀ q ∈ w.pos, C05.insideRel ((boxOfHiLo hx).cartToRel (v3map (divBy lf) q))) ∧
+       (∀ k (hk : k < pd.atoms.length), ∃ q, w.pos[k]? = some q ∧
+          pd.atoms[k].pos = v3map (fmtVal f) (v3map (divBy lf) q))) ∧
+      -- tilt line
+      ((∃ l ∈ dataDocOf f style p, l.getLast? = some (cs!"yz")) ↔ tilted p.hilo) := by
+  obtain ⟨p, w, lf, cols, L, pd, hd, hw, hnorm, hlf, hcols, hL, hcL, htext, hparse, hna, hnt, hhilo, hhint, halen,
+    hatoms, hvel⟩ := parseData_writeData s style u f text h hs
+  have hlfpos : ∀ c, lf = some c → 0 < c := by
+    intro c hc
+    apply hu c
+    unfold lengthFactor at hlf
+    cases hf : u.factor? "length" with
+    | none => rw [hf] at hlf; cases hlf
+    | some x =>
+      rw [hf] at hlf
+      simp only [pure, Except.pure, Except.ok.injEq] at hlf
+      rw [hlf, hc]
+  obtain ⟨_, _, lf', _, hlf', _, _, _, hphilo, _, _⟩ := dataParts_ok s style u p w hd
+  have hlfe : lf' = lf := by rw [hlf] at hlf'; injection hlf' with e; exact e.symm
+  rw [hlfe] at hphilo
+  have hids : ∀ k (hk : k < pd.atoms.length), pd.atoms[k].id = (k : Int) + 1 := fun k hk => (hatoms k hk).id
+  refine ⟨p, w, lf, pd, hd, hlf, hw, htext, hparse, hna, by rw [halen, hna], ?_, ?_, ?_, ?_, ?_, ?_⟩
+  · intro v hv
+    rcases hvel with ⟨_, h0⟩ | ⟨_, vc, vrecs, _, h1, h2, _⟩
+    · rw [h0] at hv; cases hv
+    · rw [h1] at hv; injection hv with hv; subst hv; rw [h2, hna]
+  · intro k hk
+    exact ⟨(hatoms k hk).id, (hatoms k hk).type⟩
+  · intro v hv k hk
+    rcases hvel with ⟨_, h0⟩ | ⟨_, vc, vrecs, _, h1, _, h3⟩
+    · rw [h0] at hv; cases hv
+    · rw [h1] at hv; injection hv with hv; subst hv; exact (h3 k hk).id
+  · -- ids k+1 are pairwise different
+    have hmap : pd.atoms.map (·.id) = seqIds pd.atoms.length := by
+      apply List.ext_getElem
+      · simp [seqIds]
+      · intro k h1 h2
+        simp only [List.getElem_map, seqIds, List.getElem_range]
+        exact hids k (by simpa using h1)
+    rw [hmap]
+    have : ∀ n, hasDup (seqIds n) = false := by
+      intro n
+      induction n with
+      | zero => rfl
+      | succ n ih =>
+        have e : seqIds (n + 1) = seqIds n ++ [(n : Int) + 1] := by simp [seqIds, List.range_succ]
+        have happ : ∀ (a : List Int) (x : Int), hasDup a = false → x ∉ a → hasDup (a ++ [x]) = false := by
+          intro a x
+          induction a with
+          | nil => intro _ _; rfl
+          | cons y ys ih2 =>
+            intro h1 h2
+            simp only [hasDup, Bool.or_eq_false_iff, List.cons_append] at h1 ⊢
+            simp only [List.mem_cons, not_or] at h2
+            refine ⟨?_, ih2 h1.2 h2.2⟩
+            simp only [List.contains_eq_mem, List.mem_append, List.mem_cons, List.not_mem_nil, or_false,
+              decide_eq_false_iff_not, not_or]
+            have := h1.1
+            simp only [List.contains_eq_mem, decide_eq_false_iff_not] at this
+            exact ⟨this, fun e => h2.1 e.symm⟩
+        rw [e]
+        apply happ _ _ ih
+        simp only [seqIds, List.mem_map, List.mem_range, not_exists, not_and]
+        intro k hk e; omega
+    exact this _
+  · have hll := hilo_lo_lt_hi w.box hnorm lf hlfpos
+    simp only at hll ⊢
+    refine ⟨hphilo, hhilo, hll.1, hll.2.1, hll.2.2, ?_, ?_, ?_⟩
+    · intro n hn
+      subst hn
+      rw [hhilo]
+      exact ⟨fun hx => fixedVal_lt _ _ n hx, fun hx => fixedVal_lt _ _ n hx, fun hx => fixedVal_lt _ _ n hx⟩
+    · intro q hq
+      subst hw
+      exact data_atoms_inside s lf (fun c hc => ne_of_gt (hlfpos c hc)) hnorm q hq
+    · intro k hk
+      exact (hatoms k hk).pos
+  · exact tilt_line_iff f style cols hcols p
 
 /-! ## LAMMPS bounding box of a triclinic cell (dump manual page) -/
 
